@@ -98,6 +98,10 @@ def streams(ctx, binary):
     reloc(ctx, binary, {"VERIF_GEN": gen}, "synthesised streams", test="^TestVerifRelocStreams$", minjudged=300)
 
 
+def f5_reuse(ro):
+    pass
+
+
 def run(ctx):
     q = ctx.quick()
     binary = ctx.build_test("internal/patch", ["reloc"], name="reloc")
@@ -108,6 +112,13 @@ def run(ctx):
             if os.path.exists(b):
                 reloc(ctx, binary, {"VERIF_BIN": b, "VERIF_SAMPLE": "12000", "VERIF_NDIST": "2"}, os.path.basename(b))
     origin_depth(ctx)
+    # lifecycle side: placeholders re-used across targets, resets and builders (OriginReuse.tla)
+    from lib.replay import replay_family
+    ctx.tlc("OriginReuse", "MC_OriginReuse.cfg", workers=8, timeout=900, constants={"MaxOps": 8 if q else 10}, tag="placeholder re-use: which original a placeholder runs")
+    ob = ctx.behaviours(ctx.tlc("OriginReuse", "Gen_OriginReuse.cfg", workers=1, timeout=900, constants={"MaxOps": 4 if q else 5}, tag="all histories of ApplyO/Apply/Reset/NewBuilder/Call/CallPh"))
+    ob = [b for b in ob if sum(1 for x in b if x["op"] == "ApplyO") >= 1 and any(x["op"] in ("Call", "CallPh") for x in b)]
+    ob += ctx.behaviours(ctx.tlc("OriginReuse", "Sim_OriginReuse.cfg", workers=1, timeout=900, simulate="num=%d" % (300 if q else 5000), depth=15, tag="random histories, 3 targets sharing 2 placeholders"))
+    replay_family(ctx, "origin-reuse", ob, classify=f5_reuse)
     ctx.cov["rule"] = ("relocation: functions of 14..1500 bytes of real binaries (seeded sample in quick, all in thorough) x placeholder "
                        "distances {+1MiB, -2MiB, +64, -96}; each record parsed and judged inside TLC; non-trivial = relocation accepted "
                        "and judged faithful. control flow: 4 handle kinds x {call mocked target, call placeholder} x stack depths in "
